@@ -129,7 +129,7 @@ std::string run_impl(const Scenario &s, CaseInfo &info) {
   int epoch = 0; bool ready = false; int cur_max = mx, max_allowed = mx;
   uint64_t cleanup_end_stamp[64] = {0};
   bool nt_query_overlap = false, nt_cleanup_mixed = false, prio_mix = false;
-  int n_status = 0, n_cancel = 0, n_cancel_ok = 0, n_throwing = 0; bool tried_zero = false;
+  int n_status = 0, n_cancel = 0, n_cancel_ok = 0, n_throwing = 0, n_refused_init = 0; bool tried_zero = false;
   {
     A a(loop);
     tbox::verif::SchedPointHookRef().store(&sched_hook);
@@ -253,6 +253,11 @@ std::string run_impl(const Scenario &s, CaseInfo &info) {
         case QUIESCE: if (ready && !quiesce()) err = "TIMING: accepted tasks did not all run within 20 s although all gates are open (lost task / lost wake-up)"; break;
         case CLEANUP: if (ready) do_cleanup(); break;
         case INIT: {
+          if (ready && A::kIsPool) {   // initialize() on a pool that is already initialised must be refused and must not change anything
+            int kk = (int)op.in(0, 0, 5); n_refused_init++;
+            if (a.init(kMinMax[kk][0], kMinMax[kk][1])) { snprintf(buf, sizeof buf, "op %zu: initialize() on an already initialised pool returned true", k); err = buf; }
+            break;
+          }
           if (ready || !A::kIsPool) break;
           for (auto &g : sh.gate_open) g = false;
           int kk = (int)op.in(0, 0, 5); epoch++; if (epoch >= 63) epoch = 62;
@@ -326,6 +331,7 @@ std::string run_impl(const Scenario &s, CaseInfo &info) {
   info.cls_if(n_cancel_ok > 0, "cancel_succeeded");
   info.cls_if(n_throwing > 0, "task_body_ends_by_throwing");
   info.cls_if(tried_zero, "initialize_with_maximum_0_tried_first");
+  info.cls_if(n_refused_init > 0, "initialize_called_on_an_initialised_pool");
   info.cls_if(g_sched_hits.load() > 0, "sched_point_delay_applied");
   info.cls_if(sh.max_running.load() >= 2, "bodies_in_parallel");
   info.nontrivial = sh.n > 0 && (nt_query_overlap || nt_cleanup_mixed || (order_checked && prio_mix) || (epoch > 0 && n_cancel_ok > 0));
